@@ -69,7 +69,7 @@ structure Sup where
   mood : Int := 1
   stopping : Bool := false
   stopGroups : List Nat := []
-  pidhist : List (Int × Nat) := []        -- options.pidhistory: pid ↦ process name
+  pidhist : List (Int × (Nat × Nat)) := []   -- options.pidhistory: pid ↦ process object (its name and incarnation)
   pending : List Deferred := []
   env : Env := {}
   outs : List SOut := []
@@ -84,10 +84,18 @@ def semit (o : SOut) : M := sguard fun s => { s with outs := s.outs ++ [o] }
 
 /-! ### environment -/
 
+/-- the kernel's contract for `fork()`: the pid of a new child is not 0 and is not the pid of a child
+    that has not been waited for yet (its entry is still in `pidhistory`) -/
+def spawnFresh (s : Sup) : SpawnRes → Bool
+  | .ok pid => pid != 0 && (s.pidhist.lookup pid).isNone
+  | _ => true
+
+/-- the next spawn outcome; an environment that runs out of answers, or whose answer breaks the
+    kernel's contract, cannot continue (the callers flag `envExhausted`) -/
 def popSpawn (s : Sup) : Option SpawnRes × Sup :=
   match s.env.spawns with
   | [] => (none, s)
-  | r :: rs => (some r, { s with env := { s.env with spawns := rs } })
+  | r :: rs => if spawnFresh s r then (some r, { s with env := { s.env with spawns := rs } }) else (none, s)
 
 def popKill (s : Sup) : Option KillRes × Sup :=
   match s.env.kills with
@@ -117,8 +125,8 @@ def wantsKillInTransition (cfg : Cfg) (p : Proc) (now : Int) : Bool :=
   p.state == .stopping && p0.pid != 0 && Sv.ile (p0.delay - now) 0
 
 /-- `options.pidhistory[pid] = self` in `_spawn_as_parent` -/
-def regFork (name : Nat) (acc : Sup) : Out → Sup
-  | .fork pid => { acc with pidhist := (acc.pidhist.filter (·.1 != pid)) ++ [(pid, name)] }
+def regFork (name gen : Nat) (acc : Sup) : Out → Sup
+  | .fork pid => { acc with pidhist := (acc.pidhist.filter (·.1 != pid)) ++ [(pid, (name, gen))] }
   | _ => acc
 
 /-- run a per-process operation on process (gid, name), recording its outputs and errors;
@@ -130,7 +138,7 @@ def onProc (name : Nat) (f : Cfg → Proc.S → Proc.S) : M := sguard fun s =>
     let r := f e.cfg { p := e.p }
     let s1 := { s with procs := setProc s.procs name r.p, outs := s.outs ++ r.outs.map (SOut.proc name) }
     -- pidhistory: a successful fork registers the child
-    let s2 := r.outs.foldl (regFork name) s1
+    let s2 := r.outs.foldl (regFork name e.gen) s1
     match r.err with
     | some _ => { s2 with err := some .assertion }
     | none => s2
@@ -207,6 +215,21 @@ def shutdownPhase1 : M := sguard fun s =>
     exitTest s2
   else s
 
+/-- is the process object (name, incarnation) still in the process table? -/
+def isLive (ps : List PE) (name gen : Nat) : Bool :=
+  match findPE ps name with
+  | some e => e.gen == gen
+  | none => false
+
+/-- `del self.options.pidhistory[pid]` (runs only if finish() returned) -/
+def delHist (pid : Int) : M := sguard fun s => { s with pidhist := s.pidhist.filter (·.1 != pid) }
+
+/-- `process.finish(pid, sts); del self.options.pidhistory[pid]` for the process object recorded at
+    fork time.  The entry is the *object*: if its group has been removed (and possibly added again
+    with new objects) meanwhile, finish() runs on the orphaned object and nothing here changes. -/
+def reapOne (pid es : Int) (name gen : Nat) : M := fun s =>
+  delHist pid (if isLive s.procs name gen then onProc name (fun cfg => finish cfg s.env.now es false) s else s)
+
 /-- one `reap()` invocation: waitpid answers come from the environment; the recursion guard stops
     it after 100 children -/
 def reapLoop : Int → List (Int × Int) → M
@@ -217,11 +240,7 @@ def reapLoop : Int → List (Int × Int) → M
     else
       match s.pidhist.lookup pid with
       | none => s |> semit (.reapedUnknown pid) |> reapLoop (k + 1) rest
-      | some name =>
-        let s1 := onProc name (fun cfg => finish cfg s.env.now es false) s
-        -- `del self.options.pidhistory[pid]` runs only if finish() returned
-        let s2 := sguard (fun s => { s with pidhist := s.pidhist.filter (·.1 != pid) }) s1
-        reapLoop (k + 1) rest s2
+      | some (name, gen) => reapLoop (k + 1) rest (reapOne pid es name gen s)
 
 def reap : M := sguard fun s =>
   match s.env.waits with
